@@ -302,6 +302,13 @@ def settings_space(info, tier, rng):
                         if info.has_salt:
                             st["salt"] = s
                         out.append(st)
+    # extra axes against each other (scrypt: each string format x block size x parallelism; two axes at a time)
+    keys = list(ax)
+    for i, k1 in enumerate(keys):
+        for k2 in keys[i + 1 :]:
+            for v1 in ax[k1][1:]:
+                for v2 in ax[k2][1:]:
+                    out.append({**base, k1: v1, k2: v2})
     if tier != "quick" and info.has_rounds and info.has_salt:
         for r in rv[1:]:
             for s in sv:
